@@ -109,7 +109,10 @@ HNext(h, ev) ==
 HViol(h, ev) ==
   CASE ev.ev = "CbBegin" ->
          IF ~KnownM(h, ev.msg)
-         THEN (IF h.lvl \notin {"stack", "dgram"} THEN {"OnlyDelivered"} ELSE {})
+         THEN \* msg = -2: the bytes are the pattern an earlier callback wrote over ITS message before returning:
+              \* the buffer was handed to a callback again (p2p.Receiver: never accessed after the call to fn)
+              IF ev.msg = 0 - 2 THEN {"NoStaleContent"}
+              ELSE (IF h.lvl \notin {"stack", "dgram"} THEN {"OnlyDelivered"} ELSE {})
          ELSE LET M == h.msgs[ev.msg] IN
               \* exactly one receiver callback per message, never two
               (IF (M.strong \/ h.lvl = "dgram") /\ M.ncb >= 1 THEN {"ExactlyOnce"} ELSE {})
